@@ -5,6 +5,7 @@ From Dimod Require Import Base.Util Model.Poly Model.HPoly Model.View
 From Dimod Require Model.Adj Model.AdjSubstAll Proofs.AdjSubstAllFacts.
 From Dimod Require Gen.Gen_PyBQM Model.PyBqm Proofs.PyBqmFacts Model.IsingQubo Proofs.IsingQuboFacts.
 From Dimod Require Model.Samples Proofs.SamplesFacts Model.SSet Model.SSetVartype Proofs.SSetVartypeFacts.
+From Dimod Require Model.ViewOps Proofs.ViewOpsFacts Model.HPolyPy Proofs.HPolyPyFacts Model.Expr Proofs.ExprFacts Model.VartypeOps Proofs.VartypeOpsFacts.
 Import ListNotations.
 Open Scope Qc_scope.
 
@@ -267,6 +268,312 @@ Theorem C02_sampleset_change_vartype_preserves :
     (SSetVartype.ss_change_vartype target off s = SSet.Fail s' -> SSet.vt s' = SSet.vt s).
 Proof. exact SSetVartypeFacts.ss_change_vartype_preserves. Qed.
 Print Assumptions C02_sampleset_change_vartype_preserves.
+
+(* ================= second wave: code-shaped models of the remaining conversion paths ================= *)
+(* vartypeview.py: reads (offset getter, get_linear, get_quadratic, iter_neighborhood, iter_quadratic) over the factors generated by
+   translators/view_reads.py, the delta-based writes (set_linear, set_quadratic, offset setter), remove_interaction,
+   remove_variable, energies; polynomial.py to_binary/to_spin python loops; quadratic_model.h /
+   constrained_quadratic_model.h change_vartype, spin_to_binary, flip_variable on the raw index-level state *)
+Theorem C02_view_reported_polynomial_energy :
+  forall (d : vdir) (base : poly) (y : sample),
+  energy (ViewOps.view_poly d base) y = energy base (fun v : nat => ViewOps.base_value d (y v)).
+Proof. exact ViewOpsFacts.view_poly_energy. Qed.
+Print Assumptions C02_view_reported_polynomial_energy.
+
+Theorem C02_view_reads_are_converted_coefficients :
+  forall (d : vdir) (vars : list nat) (base : poly),
+  NoDup vars ->
+  SamplesFacts.mentions_only base vars ->
+  ViewOpsFacts.no_self_loop base ->
+  ViewOps.view_offset_gen d base = p_off (ViewOps.view_copy d vars base) /\
+  (forall v : nat,
+   ViewOps.view_get_linear d base v = lin_coeff (p_lin (ViewOps.view_copy d vars base)) v) /\
+  (forall u v : nat,
+   quad_coeff (ViewOps.view_iter_quadratic d base) u v =
+   quad_coeff (p_quad (ViewOps.view_copy d vars base)) u v).
+Proof. exact ViewOpsFacts.view_reads_are_converted_coefficients. Qed.
+Print Assumptions C02_view_reads_are_converted_coefficients.
+
+Theorem C02_view_set_linear_spec :
+  forall (d : vdir) (v : nat) (b : Qc) (base : poly),
+  ViewOps.view_get_linear d (ViewOps.view_set_linear d v b base) v = b /\
+  (forall w : nat,
+   w <> v ->
+   ViewOps.view_get_linear d (ViewOps.view_set_linear d v b base) w = ViewOps.view_get_linear d base w) /\
+  p_quad (ViewOps.view_set_linear d v b base) = p_quad base /\
+  (forall x y : nat,
+   ViewOps.view_get_quadratic d (ViewOps.view_set_linear d v b base) x y =
+   ViewOps.view_get_quadratic d base x y) /\
+  ViewOps.view_offset_gen d (ViewOps.view_set_linear d v b base) = ViewOps.view_offset_gen d base.
+Proof. exact ViewOpsFacts.view_set_linear_spec. Qed.
+Print Assumptions C02_view_set_linear_spec.
+
+Theorem C02_view_set_linear_energy :
+  forall (d : vdir) (v : nat) (b : Qc) (base : poly) (y : sample),
+  energy (ViewOps.view_poly d (ViewOps.view_set_linear d v b base)) y =
+  energy (ViewOps.view_poly d base) y + (b - ViewOps.view_get_linear d base v) * y v.
+Proof. exact ViewOpsFacts.view_set_linear_energy. Qed.
+Print Assumptions C02_view_set_linear_energy.
+
+Theorem C02_view_set_quadratic_spec :
+  forall (d : vdir) (u v : nat) (b : Qc) (base : poly),
+  u <> v ->
+  ViewOps.view_get_quadratic d (ViewOps.view_set_quadratic d u v b base) u v = Some b /\
+  (forall x y : nat,
+   same_pair x y u v = false ->
+   ViewOps.view_get_quadratic d (ViewOps.view_set_quadratic d u v b base) x y =
+   ViewOps.view_get_quadratic d base x y) /\
+  (forall x y : nat,
+   quad_coeff (ViewOps.view_iter_quadratic d (ViewOps.view_set_quadratic d u v b base)) x y =
+   (if same_pair x y u v then b else quad_coeff (ViewOps.view_iter_quadratic d base) x y)) /\
+  (forall w : nat,
+   ViewOps.view_get_linear d (ViewOps.view_set_quadratic d u v b base) w =
+   ViewOps.view_get_linear d base w) /\
+  ViewOps.view_offset_gen d (ViewOps.view_set_quadratic d u v b base) = ViewOps.view_offset_gen d base.
+Proof. exact ViewOpsFacts.view_set_quadratic_spec. Qed.
+Print Assumptions C02_view_set_quadratic_spec.
+
+Theorem C02_view_set_quadratic_energy :
+  forall (d : vdir) (u v : nat) (b : Qc) (base : poly) (y : sample),
+  u <> v ->
+  energy (ViewOps.view_poly d (ViewOps.view_set_quadratic d u v b base)) y =
+  energy (ViewOps.view_poly d base) y +
+  (b - Gen_ViewReads.gen_get_quadratic d * quad_coeff (p_quad base) u v) * y u * y v.
+Proof. exact ViewOpsFacts.view_set_quadratic_energy. Qed.
+Print Assumptions C02_view_set_quadratic_energy.
+
+Theorem C02_view_set_offset_spec :
+  forall (d : vdir) (b : Qc) (base : poly),
+  ViewOps.view_offset_gen d (ViewOps.view_set_offset d b base) = b /\
+  p_lin (ViewOps.view_set_offset d b base) = p_lin base /\
+  p_quad (ViewOps.view_set_offset d b base) = p_quad base /\
+  (forall v : nat,
+   ViewOps.view_get_linear d (ViewOps.view_set_offset d b base) v = ViewOps.view_get_linear d base v) /\
+  (forall u v : nat,
+   ViewOps.view_get_quadratic d (ViewOps.view_set_offset d b base) u v =
+   ViewOps.view_get_quadratic d base u v).
+Proof. exact ViewOpsFacts.view_set_offset_spec. Qed.
+Print Assumptions C02_view_set_offset_spec.
+
+Theorem C02_view_remove_interaction_spec :
+  forall (d : vdir) (u v : nat) (base base' : poly),
+  ViewOps.view_remove_interaction d u v base = Some base' ->
+  ViewOps.view_get_quadratic d base' u v = None /\
+  (forall y : sample,
+   energy (ViewOps.view_poly d base') y = energy (remove_interaction u v (ViewOps.view_poly d base)) y).
+Proof. exact ViewOpsFacts.view_remove_interaction_spec. Qed.
+Print Assumptions C02_view_remove_interaction_spec.
+
+Theorem C02_view_remove_variable_spec :
+  forall (d : vdir) (v : nat) (base : poly) (y : sample),
+  ViewOpsFacts.no_self_loop base ->
+  energy (ViewOps.view_poly d (ViewOps.view_remove_variable d v base)) y =
+  energy (remove_variable v (ViewOps.view_poly d base)) y.
+Proof. exact ViewOpsFacts.view_remove_variable_spec. Qed.
+Print Assumptions C02_view_remove_variable_spec.
+
+Theorem C02_view_remove_variable_is_convert_remove_convert_back :
+  forall (d : vdir) (v : nat) (vars : list nat) (base : poly) (s : sample),
+  ViewOpsFacts.no_self_loop base ->
+  NoDup vars ->
+  SamplesFacts.mentions_only base vars ->
+  energy (ViewOps.view_remove_variable d v base) s =
+  energy (ViewOps.view_copy_back d vars (remove_variable v (ViewOps.view_copy d vars base))) s.
+Proof. exact ViewOpsFacts.view_remove_variable_roundtrip. Qed.
+Print Assumptions C02_view_remove_variable_is_convert_remove_convert_back.
+
+Theorem C02_view_energies_spec :
+  forall (d : vdir) (base : poly) (y : nat -> Qc),
+  (forall v : nat, ViewOpsFacts.in_view_domain d (y v)) ->
+  ViewOps.view_energy d base y = energy (ViewOps.view_poly d base) y.
+Proof. exact ViewOpsFacts.view_energies_spec. Qed.
+Print Assumptions C02_view_energies_spec.
+
+Theorem C02_poly_to_binary_loop_energy :
+  forall (p : hpoly) (x : sample),
+  henergy (HPolyPy.to_binary_py p) x = henergy p (fun v : nat => two * x v - 1).
+Proof. exact HPolyPyFacts.to_binary_py_energy. Qed.
+Print Assumptions C02_poly_to_binary_loop_energy.
+
+Theorem C02_poly_to_spin_loop_energy :
+  forall (p : hpoly) (s : sample),
+  henergy (HPolyPy.to_spin_py p) s = henergy p (fun v : nat => (s v + 1) * half).
+Proof. exact HPolyPyFacts.to_spin_py_energy. Qed.
+Print Assumptions C02_poly_to_spin_loop_energy.
+
+Theorem C02_poly_to_binary_loop_coefficients :
+  forall p : hpoly, hpoly_eqb (HPolyPy.to_binary_py p) (h_spin_to_binary p) = true.
+Proof. exact HPolyPyFacts.to_binary_py_coeff. Qed.
+Print Assumptions C02_poly_to_binary_loop_coefficients.
+
+Theorem C02_poly_to_spin_loop_coefficients :
+  forall p : hpoly, hpoly_eqb (HPolyPy.to_spin_py p) (h_binary_to_spin p) = true.
+Proof. exact HPolyPyFacts.to_spin_py_coeff. Qed.
+Print Assumptions C02_poly_to_spin_loop_coefficients.
+
+Theorem C02_poly_loops_roundtrip_energy :
+  forall (p : hpoly) (s : sample), henergy (HPolyPy.to_spin_py (HPolyPy.to_binary_py p)) s = henergy p s.
+Proof. exact HPolyPyFacts.to_spin_to_binary_py_energy. Qed.
+Print Assumptions C02_poly_loops_roundtrip_energy.
+
+Theorem C02_qm_change_vartype_energy :
+  forall (t : vartype) (v : nat) (q q' : VartypeOps.qmi) (s : nat -> Qc),
+  VartypeOpsFacts.QInv q ->
+  (v < Adj.nvars (VartypeOps.q_m q))%nat ->
+  VartypeOps.qm_change_vartype t v q = Some q' ->
+  Adj.energy_adj (VartypeOps.q_m q') s =
+  Adj.energy_adj (VartypeOps.q_m q)
+    (fun i : nat => if i =? v then VartypeOps.old_value (VartypeOps.qi_vartype q v) t (s i) else s i).
+Proof. exact VartypeOpsFacts.qm_change_vartype_energy. Qed.
+Print Assumptions C02_qm_change_vartype_energy.
+
+Theorem C02_qm_change_vartype_invariant :
+  forall (t : vartype) (v : nat) (q q' : VartypeOps.qmi),
+  VartypeOpsFacts.QInv q ->
+  (v < Adj.nvars (VartypeOps.q_m q))%nat ->
+  VartypeOps.qm_change_vartype t v q = Some q' -> VartypeOpsFacts.QInv q'.
+Proof. exact VartypeOpsFacts.qm_change_vartype_Inv. Qed.
+Print Assumptions C02_qm_change_vartype_invariant.
+
+Theorem C02_qm_change_vartype_info :
+  forall (t : vartype) (v : nat) (q q' : VartypeOps.qmi) (i0 : Expr.minfo),
+  VartypeOps.qm_change_vartype t v q = Some q' ->
+  nth_error (VartypeOps.q_info q) v = Some i0 ->
+  nth_error (VartypeOps.q_info q') v = Some (VartypeOpsFacts.new_info (Expr.i_vt i0) t i0) /\
+  (forall u : nat, u <> v -> nth_error (VartypeOps.q_info q') u = nth_error (VartypeOps.q_info q) u) /\
+  (forall u : nat, u <> v -> VartypeOps.qi_vartype q' u = VartypeOps.qi_vartype q u) /\
+  length (VartypeOps.q_info q') = length (VartypeOps.q_info q).
+Proof. exact VartypeOpsFacts.qm_change_vartype_info_at. Qed.
+Print Assumptions C02_qm_change_vartype_info.
+
+Theorem C02_qm_change_vartype_none_iff :
+  forall (t : vartype) (v : nat) (q : VartypeOps.qmi),
+  VartypeOps.qm_change_vartype t v q = None <->
+  VartypeOps.cv_supported (VartypeOps.qi_vartype q v) t = false.
+Proof. exact VartypeOpsFacts.qm_change_vartype_none_iff. Qed.
+Print Assumptions C02_qm_change_vartype_none_iff.
+
+Theorem C02_qm_spin_to_binary_energy :
+  forall q : VartypeOps.qmi,
+  VartypeOpsFacts.QInv q ->
+  exists q' : VartypeOps.qmi,
+    VartypeOps.qm_spin_to_binary q = Some q' /\
+    VartypeOpsFacts.QInv q' /\
+    Adj.nvars (VartypeOps.q_m q') = Adj.nvars (VartypeOps.q_m q) /\
+    (forall i : nat, VartypeOps.qi_vartype q' i = VartypeOpsFacts.stb_vt (VartypeOps.qi_vartype q i)) /\
+    (forall i : nat, VartypeOps.qi_vartype q' i <> SPIN) /\
+    (forall x : nat -> Qc,
+     Adj.energy_adj (VartypeOps.q_m q') x =
+     Adj.energy_adj (VartypeOps.q_m q)
+       (fun i : nat =>
+        if VartypeOps.is_spin (Adj.vt_at (VartypeOps.q_m q) i) then two * x i - 1 else x i)).
+Proof. exact VartypeOpsFacts.qm_spin_to_binary_energy. Qed.
+Print Assumptions C02_qm_spin_to_binary_energy.
+
+Theorem C02_cqm_change_vartype_energy :
+  forall (t : vartype) (v : nat) (q q' : Expr.mcqm),
+  ExprFacts.CqmInv q ->
+  VartypeOps.cqm_change_vartype t v q = Some q' ->
+  ExprFacts.CqmInv q' /\
+  VartypeOpsFacts.CqmRel
+    (fun s : sample => upd s v (VartypeOps.old_value (VartypeOps.cq_vartype q v) t (s v))) q q'.
+Proof. exact VartypeOpsFacts.cqm_change_vartype_energy. Qed.
+Print Assumptions C02_cqm_change_vartype_energy.
+
+Theorem C02_cqm_change_vartype_same_activity :
+  forall (t : vartype) (v : nat) (q q' : Expr.mcqm),
+  ExprFacts.CqmInv q ->
+  VartypeOps.cqm_change_vartype t v q = Some q' ->
+  (forall s : sample,
+   energy (Expr.abs_expr (Expr.m_obj q')) s =
+   energy (Expr.abs_expr (Expr.m_obj q))
+     (upd s v (VartypeOps.old_value (VartypeOps.cq_vartype q v) t (s v)))) /\
+  Forall2
+    (fun k k' : Expr.mcon =>
+     Expr.mc_sense k' = Expr.mc_sense k /\
+     Expr.mc_rhs k' = Expr.mc_rhs k /\
+     (forall s : sample,
+      VartypeOps.mc_activity k' s =
+      VartypeOps.mc_activity k (upd s v (VartypeOps.old_value (VartypeOps.cq_vartype q v) t (s v)))))
+    (Expr.m_cons q) (Expr.m_cons q').
+Proof. exact VartypeOpsFacts.cqm_change_vartype_same_activity. Qed.
+Print Assumptions C02_cqm_change_vartype_same_activity.
+
+Theorem C02_cqm_change_vartype_none_iff :
+  forall (t : vartype) (v : nat) (q : Expr.mcqm),
+  VartypeOps.cqm_change_vartype t v q = None <->
+  VartypeOps.cv_supported (VartypeOps.cq_vartype q v) t = false.
+Proof. exact VartypeOpsFacts.cqm_change_vartype_none_iff. Qed.
+Print Assumptions C02_cqm_change_vartype_none_iff.
+
+Theorem C02_cqm_spin_to_binary_energy :
+  forall q : Expr.mcqm,
+  ExprFacts.CqmInv q ->
+  exists q' : Expr.mcqm,
+    VartypeOps.cqm_spin_to_binary q = Some q' /\
+    ExprFacts.CqmInv q' /\
+    length (Expr.m_info q') = length (Expr.m_info q) /\
+    (forall i : nat, VartypeOps.cq_vartype q' i = VartypeOpsFacts.stb_vt (VartypeOps.cq_vartype q i)) /\
+    (forall i : nat, VartypeOps.cq_vartype q' i <> SPIN) /\
+    VartypeOpsFacts.CqmRel
+      (fun (s : sample) (i : nat) =>
+       if VartypeOps.is_spin (VartypeOps.cq_vartype q i) then two * s i - 1 else s i) q q'.
+Proof. exact VartypeOpsFacts.cqm_spin_to_binary_energy. Qed.
+Print Assumptions C02_cqm_spin_to_binary_energy.
+
+Theorem C02_cqm_spin_to_binary_same_activity :
+  forall q : Expr.mcqm,
+  ExprFacts.CqmInv q ->
+  exists q' : Expr.mcqm,
+    VartypeOps.cqm_spin_to_binary q = Some q' /\
+    (forall s : sample,
+     energy (Expr.abs_expr (Expr.m_obj q')) s =
+     energy (Expr.abs_expr (Expr.m_obj q))
+       (fun i : nat => if VartypeOps.is_spin (VartypeOps.cq_vartype q i) then two * s i - 1 else s i)) /\
+    Forall2
+      (fun k k' : Expr.mcon =>
+       Expr.mc_sense k' = Expr.mc_sense k /\
+       Expr.mc_rhs k' = Expr.mc_rhs k /\
+       (forall s : sample,
+        VartypeOps.mc_activity k' s =
+        VartypeOps.mc_activity k
+          (fun i : nat => if VartypeOps.is_spin (VartypeOps.cq_vartype q i) then two * s i - 1 else s i)))
+      (Expr.m_cons q) (Expr.m_cons q').
+Proof. exact VartypeOpsFacts.cqm_spin_to_binary_same_activity. Qed.
+Print Assumptions C02_cqm_spin_to_binary_same_activity.
+
+Theorem C02_cqm_flip_variable_energy :
+  forall (v : nat) (q q' : Expr.mcqm),
+  ExprFacts.CqmInv q ->
+  VartypeOps.cqm_flip_variable v q = Some q' ->
+  ExprFacts.CqmInv q' /\
+  Expr.m_info q' = Expr.m_info q /\
+  VartypeOpsFacts.CqmRel
+    (fun s : sample => upd s v (VartypeOps.flip_value (VartypeOps.cq_vartype q v) (s v))) q q'.
+Proof. exact VartypeOpsFacts.cqm_flip_variable_energy. Qed.
+Print Assumptions C02_cqm_flip_variable_energy.
+
+Theorem C02_cqm_flip_variable_py_energy :
+  forall (v : nat) (q q' : Expr.mcqm),
+  ExprFacts.CqmInv q ->
+  VartypeOps.py_cqm_flip_variable v q = Some q' ->
+  ExprFacts.CqmInv q' /\
+  Expr.m_info q' = Expr.m_info q /\
+  VartypeOpsFacts.ExprRel
+    (fun s : sample => upd s v (VartypeOps.flip_value (VartypeOps.cq_vartype q v) (s v))) 
+    (Expr.m_obj q) (Expr.m_obj q') /\
+  Forall2
+    (fun k k' : Expr.mcon =>
+     VartypeOpsFacts.ConRelM
+       (fun s : sample => upd s v (VartypeOps.flip_value (VartypeOps.cq_vartype q v) (s v))) k k' /\
+     Expr.mc_mark k' =
+     Expr.mc_mark k &&
+     negb
+       (Expr.mc_mark k && VartypeOps.vo_is_onehot (VartypeOps.cq_vartype q) k &&
+        existsb (Nat.eqb v) (Expr.e_vars (Expr.mc_e k)))) (Expr.m_cons q) (Expr.m_cons q').
+Proof. exact VartypeOpsFacts.py_cqm_flip_variable_energy. Qed.
+Print Assumptions C02_cqm_flip_variable_py_energy.
+
 
 Example C02_example :
   let p := mkPoly (qc 1 2) [(0%nat, qc 3 1); (1%nat, qc (-1) 1)] [(0%nat, 1%nat, qc 2 1)] in
